@@ -129,8 +129,16 @@ def h2(ctx, rid):
             n += 1
             key = 'positional-call|%s' % root
             rf = prog.fns[root]
-            if rf.trait_item != 'blob::index::core::FileIndexTrait::from_records':
-                ctx.bad(rid, key, c.where(), 'positional file write called outside an index-file builder (FileIndexTrait::from_records impl)')
+
+            def in_builder(r, depth=2):
+                if r.trait_item == 'blob::index::core::FileIndexTrait::from_records':
+                    return True
+                if depth <= 0 or r.is_pub:
+                    return False
+                cs = [x for x in core.call_sites_of(prog, r.id) if x.name != 'poll']
+                return bool(cs) and all(in_builder(prog.fns[prog.fns[x.fn.id].root], depth - 1) for x in cs)
+            if not in_builder(rf):
+                ctx.bad(rid, key, c.where(), 'positional file write called outside an index-file builder (FileIndexTrait::from_records impl or a private helper only it calls)')
                 continue
             offs = [a for a in c.args if op_const(a) is not None and op_const(a)['ty'] == 'u64']
             if not offs or core.const_int(prog, op_const(offs[0])) != 0:
@@ -139,7 +147,7 @@ def h2(ctx, rid):
                     ctx.bad(rid, key, c.where(), 'positional write at an offset other than the constant 0 (index header)')
                     continue
             # receiver file created in this body
-            ogs = core.origins(f, c.args[0])
+            ogs = core.origins_ip(prog, f, c.args[0], depth=2)
             if not all(o.kind == 'call' and o.data.name == 'create' and 'IoDriver' in o.data.path for o in ogs) or not ogs:
                 ctx.bad(rid, key, c.where(), 'positional write on a file not created by this index builder: %s' % ogs)
                 continue
